@@ -73,6 +73,22 @@ fn check(m: &mut dr::Module) -> Option<String> {
     if all[glob.len()..] != rest[..] {
         return Some(format!("all_inst_iter tail {:?} != per-function slices {:?}", &all[glob.len()..], rest));
     }
+    // SPIR-V logical layout (spec 2.4): the global sections in this order
+    let mut layout: Vec<u32> = vec![];
+    layout.extend(ids(m.capabilities.iter()));
+    layout.extend(ids(m.extensions.iter()));
+    layout.extend(ids(m.ext_inst_imports.iter()));
+    layout.extend(ids(m.memory_model.iter()));
+    layout.extend(ids(m.entry_points.iter()));
+    layout.extend(ids(m.execution_modes.iter()));
+    layout.extend(ids(m.debug_string_source.iter()));
+    layout.extend(ids(m.debug_names.iter()));
+    layout.extend(ids(m.debug_module_processed.iter()));
+    layout.extend(ids(m.annotations.iter()));
+    layout.extend(ids(m.types_global_values.iter()));
+    if glob != layout {
+        return Some(format!("global_inst_iter {:?} is not the logical layout order of the sections {:?}", glob, layout));
+    }
     let asm = m.assemble();
     let mut want = vec![];
     if let Some(ref h) = m.header {
